@@ -83,6 +83,14 @@ pub enum NOp {
     RegisterHost(u16),
     /// (name, port) resolved through ToSocketAddrs inside the prober (lookup_host)
     SocketAddr(u16),
+    /// lookup storm: lookup_many(regex #i) `times` times in a row (every result checked)
+    StormRegex { regex: u8, times: u16 },
+    /// lookup storm: `count` lookups by name of names registered so far (cycling through them in
+    /// registration order, continuing where the previous storm stopped)
+    StormNames { count: u16 },
+    /// a link fault addressed by name between the prober and the k-th registered host
+    /// (0 hold, 1 release, 2 partition, 3 repair): these calls resolve names too
+    LinkByName { host: u8, kind: u8 },
 }
 
 #[derive(Clone, Debug, Serialize, Deserialize, PartialEq)]
@@ -395,6 +403,67 @@ pub fn name_of(i: u16) -> String {
         1 => format!("a.b{i}.example"),
         _ => format!("n{i}"),
     }
+}
+
+/// Long histories of repeated lookups of known names, then new registrations: the address
+/// iterator must not be touched by lookups of names that already have an address.
+fn gen_storm(rng: &mut Rng) -> NamesSc {
+    let cfg = SimCfg { rng_seed: rng.next_u64(), epoch_s: 1_000_000_000 + rng.below(1_000_000_000), ipv6: rng.chance(1, 5), duration_ms: 3_600_000, ..SimCfg::default() };
+    let first = *rng.pick(&[40u16, 100, 255, 300, 300, 500]);
+    let mut ops: Vec<NOp> = (0..first).map(NOp::Lookup).collect();
+    for i in (1..ops.len()).rev() {
+        ops.swap(i, rng.usize(0, i));
+    }
+    let hosts = rng.usize(0, 2);
+    for h in 0..hosts {
+        ops.push(NOp::RegisterHost(first + h as u16));
+    }
+    // 66 000 - 80 000 lookups of known names in total. They come in small portions (at most half
+    // the size of the initial, densely numbered block of names) and every portion is followed by
+    // the registration of a new name, so that wherever an address counter disturbed by lookups
+    // ends up, some registration falls into territory that is already taken.
+    let target = rng.range(66_000, 80_000);
+    let mut burned = 0u64;
+    let mut next_new = first + hosts as u16;
+    let mut registered = first as u64 + hosts as u64 + 1;
+    while burned < target {
+        match rng.below(20) {
+            0..=13 => {
+                let count = rng.range((first as u64 / 8).max(1), (first as u64 / 2).max(2));
+                ops.push(NOp::StormNames { count: count as u16 });
+                burned += count;
+            }
+            14 | 15 => {
+                // regexes that match a few names
+                ops.push(NOp::StormRegex { regex: *rng.pick(&[0u8, 1, 4, 6]), times: rng.range(1, 4) as u16 });
+                burned += registered / 10;
+            }
+            16 => {
+                // ".*" matches every registered name
+                ops.push(NOp::StormRegex { regex: 2, times: 1 });
+                burned += registered;
+            }
+            17 if hosts > 0 => {
+                ops.push(NOp::LinkByName { host: rng.below(hosts as u64) as u8, kind: rng.below(4) as u8 });
+                burned += 2;
+            }
+            _ => {
+                ops.push(NOp::Reverse(rng.below(first as u64) as u16));
+                ops.push(NOp::LookupInside(rng.below(first as u64) as u16));
+                burned += 1;
+            }
+        }
+        ops.push(if rng.chance(1, 8) { NOp::LookupInside(next_new) } else { NOp::Lookup(next_new) });
+        if rng.chance(1, 4) {
+            ops.push(NOp::Reverse(next_new));
+        }
+        if rng.chance(1, 8) {
+            ops.push(NOp::Reverse(rng.below(first as u64) as u16));
+        }
+        next_new += 1;
+        registered += 1;
+    }
+    NamesSc { cfg, names: next_new, ops }
 }
 
 fn gen_names(rng: &mut Rng) -> NamesSc {
@@ -1147,22 +1216,47 @@ fn literal(v: u32, ipv6: bool) -> IpAddr {
     }
 }
 
+/// The reference name table: registration order plus indexes both ways.
+#[derive(Default)]
+struct Known {
+    order: Vec<(String, IpAddr)>,
+    by_name: BTreeMap<String, IpAddr>,
+    by_addr: BTreeMap<IpAddr, String>,
+}
+
+impl Known {
+    fn iter(&self) -> std::slice::Iter<'_, (String, IpAddr)> {
+        self.order.iter()
+    }
+    fn len(&self) -> usize {
+        self.order.len()
+    }
+    fn get(&self, name: &str) -> Option<IpAddr> {
+        self.by_name.get(name).copied()
+    }
+    fn push(&mut self, name: &str, a: IpAddr) {
+        self.order.push((name.to_string(), a));
+        self.by_name.insert(name.to_string(), a);
+        self.by_addr.insert(a, name.to_string());
+    }
+}
+
 /// Judge one name -> address observation against the names seen so far.
-fn see(known: &mut Vec<(String, IpAddr)>, name: &str, got: IpAddr, how: &str, ipv6: bool, probes: &mut Counters, repeated: &mut bool) -> Option<Violation> {
-    if let Some((_, a)) = known.iter().find(|(n, _)| n == name) {
+fn see(known: &mut Known, name: &str, got: IpAddr, how: &str, ipv6: bool, probes: &mut Counters, repeated: &mut bool) -> Option<Violation> {
+    if let Some(a) = known.get(name).as_ref() {
         *repeated = true;
         if *a != got {
             return Some(Violation::new("UnstableAddress", format!("{how}({name}) returned {got}, earlier lookups of the same name returned {a}")));
         }
         return None;
     }
-    if let Some((other, _)) = known.iter().find(|(_, a)| *a == got) {
+    if let Some(other) = known.by_addr.get(&got) {
         return Some(Violation::new("DuplicateAddress", format!("{how}({name}) returned {got}, the address already given to the different name {other} ({} names registered)", known.len())));
     }
     if !in_subnet(got, ipv6) {
         return Some(Violation::new("OutOfSubnet", format!("{how}({name}) returned {got}, outside {}", if ipv6 { "fe80::/64" } else { "192.168.0.0/16" })));
     }
-    known.push((name.to_string(), got));
+    known.push(name, got);
     probes.inc("name_registered");
     if known.len() == 257 {
         probes.inc("more_than_256_names");
@@ -1176,16 +1270,22 @@ fn run_names(sc: &NamesSc, keep: bool) -> Report {
     let mut probes = Counters::default();
     let mut steps = 0u64;
     let mut repeated = false;
-    let mut known: Vec<(String, IpAddr)> = Vec::new();
+    let mut storm_lookups = 0u64;
+    let mut storm_pos = 0usize;
+    let mut known = Known::default();
     let ipv6 = sc.cfg.ipv6;
     let res = catch(|| {
         let mut sim = sc.cfg.build();
         let q: NQueue = Rc::new(RefCell::new((None, None)));
         let mut prober_up = false;
+        let prober_registered = Rc::new(Cell::new(false));
+        let prober_flag = prober_registered.clone();
+        let mut registered_hosts: Vec<String> = Vec::new();
         let tick = sc.cfg.tick();
-        let mut ask = |sim: &mut turmoil::Sim<'_>, known: &mut Vec<(String, IpAddr)>, req: NReq, steps: &mut u64, probes: &mut Counters, repeated: &mut bool| -> Result<Option<NAns>, Violation> {
+        let mut ask = |sim: &mut turmoil::Sim<'_>, known: &mut Known, req: NReq, steps: &mut u64, probes: &mut Counters, repeated: &mut bool| -> Result<Option<NAns>, Violation> {
             if !prober_up {
                 prober_up = true;
+                prober_flag.set(true);
                 let qq = q.clone();
                 sim.host("prober", move || prober(qq.clone(), tick));
                 let a = sim.lookup("prober");
@@ -1229,7 +1329,7 @@ fn run_names(sc: &NamesSc, keep: bool) -> Report {
                 }
                 NOp::Reverse(n) | NOp::ReverseInside(n) => {
                     let name = name_of(*n);
-                    match known.iter().find(|(k, _)| *k == name).map(|(_, a)| *a) {
+                    match known.get(&name) {
                         None => {
                             let got = sim.lookup(name.as_str());
                             log.ev(format!("#{i} Sim::lookup({name}) -> {got}"));
@@ -1311,12 +1411,69 @@ fn run_names(sc: &NamesSc, keep: bool) -> Report {
                         }
                     }
                 }
+                NOp::StormRegex { regex, times } => {
+                    let ri = *regex as usize % REGEXES.len();
+                    let re = regex::Regex::new(REGEXES[ri]).unwrap();
+                    let mut want: Vec<IpAddr> = known.iter().filter(|(n, _)| re.is_match(n)).map(|(_, a)| *a).collect();
+                    want.sort();
+                    let mut v = None;
+                    for k in 0..*times {
+                        let mut gs = sim.lookup_many(re.clone());
+                        gs.sort();
+                        storm_lookups += want.len() as u64;
+                        if gs != want {
+                            v = Some(Violation::new("RegexMismatch", format!("lookup_many(/{}/), call {k} of a storm: returned {} addresses, the registered names matching it have {}", REGEXES[ri], gs.len(), want.len())));
+                            break;
+                        }
+                    }
+                    log.ev(format!("#{i} storm: lookup_many(/{}/) x{times} -> {} addresses each", REGEXES[ri], want.len()));
+                    log.tag("storm-re");
+                    repeated = true;
+                    v
+                }
+                NOp::StormNames { count } => {
+                    let mut v = None;
+                    if known.len() > 0 {
+                        for _ in 0..*count {
+                            let (name, a) = &known.order[storm_pos % known.len()];
+                            storm_pos += 1;
+                            let got = sim.lookup(name.as_str());
+                            storm_lookups += 1;
+                            if got != *a {
+                                v = Some(Violation::new("UnstableAddress", format!("Sim::lookup({name}) returned {got} in a storm of repeated lookups, earlier lookups of the same name returned {a}")));
+                                break;
+                            }
+                        }
+                    }
+                    log.ev(format!("#{i} storm: {count} lookups by name of names registered before ({} names)", known.len()));
+                    log.tag("storm-n");
+                    repeated = true;
+                    v
+                }
+                NOp::LinkByName { host, kind } => {
+                    // only between registered hosts (a link exists); the prober is one of them
+                    if prober_registered.get() && (*host as usize) < registered_hosts.len() {
+                        let (a, b) = ("prober", registered_hosts[*host as usize].as_str());
+                        match kind % 4 {
+                            0 => sim.hold(a, b),
+                            1 => sim.release(a, b),
+                            2 => sim.partition(a, b),
+                            _ => sim.repair(a, b),
+                        }
+                        storm_lookups += 2;
+                        probes.inc("link_fault_by_name");
+                        log.ev(format!("#{i} link fault kind {} by name between {a} and {b}", kind % 4));
+                        log.tag("lf");
+                    }
+                    None
+                }
                 NOp::RegisterHost(n) => {
                     let name = name_of(*n);
-                    if known.iter().any(|(k, _)| *k == name) {
+                    if known.get(&name).is_some() {
                         None // registering the same address twice is a documented panic
                     } else {
                         sim.host(name.clone(), || async { Ok(()) });
+                        registered_hosts.push(name.clone());
                         let got = sim.lookup(name.as_str());
                         log.ev(format!("#{i} Sim::host({name}); lookup -> {got}"));
                         log.tag("h");
@@ -1326,7 +1483,7 @@ fn run_names(sc: &NamesSc, keep: bool) -> Report {
                 }
                 NOp::SocketAddr(n) => {
                     let name = name_of(*n);
-                    let want = known.iter().find(|(k, _)| *k == name).map(|(_, a)| *a);
+                    let want = known.get(&name);
                     match ask(&mut sim, &mut known, NReq::SockAddr(name.clone()), &mut steps, &mut probes, &mut repeated) {
                         Err(v) => Some(v),
                         Ok(Some(NAns::Sock(g))) => {
@@ -1356,6 +1513,10 @@ fn run_names(sc: &NamesSc, keep: bool) -> Report {
     }
     log.tag(if ipv6 { "v6" } else { "v4" });
     let mut rep = Report::from_log(log.take());
+    if storm_lookups >= 65_536 {
+        probes.inc("lookup_storm_over_65536_then_new_names");
+    }
+    probes.add("storm_lookups_of_known_names", storm_lookups);
     rep.nontrivial = known.len() >= 2 && repeated;
     rep.violation = violation;
     rep.probes = probes;
@@ -1406,6 +1567,8 @@ impl Property for C15 {
     fn generate(rng: &mut Rng, _idx: u64, _tier: Tier) -> Scenario {
         if rng.chance(7, 10) {
             Scenario::Ports(gen_ports(rng))
+        } else if rng.chance(1, 60) {
+            Scenario::Names(gen_storm(rng))
         } else {
             Scenario::Names(gen_names(rng))
         }
